@@ -916,7 +916,7 @@ fn drive(ctx: &Ctx, eng: Eng, quick: u64, thorough: u64) {
         let mut count = 0u64;
         'outer: for l in layouts.iter() {
             let nreg = if eng == Eng::Interp { 2 + l.ranges.len() } else { 2 };
-            let l = if eng == Eng::Interp { l.clone() } else { Layout { ranges: vec![], ..l.clone() } };
+            let l = if eng == Eng::Interp { l.clone() } else { Layout { ranges: vec![], enclose: 0, cover: 0, ..l.clone() } };
             for region in 0..nreg as u8 {
                 for end in [false, true] {
                     for delta in -9i8..=9 {
